@@ -1419,3 +1419,21 @@ M("C06-benign-sign-parenthesised", "C06", "src/cppparser/cppExpression.cxx",
   "        out << sign;\n        if (!operand_str.empty() && operand_str[0] == sign) {\n          out << ' ';\n        }\n        out << operand_str;",
   "        out << \"(\" << sign << \" \";\n        _u._op._op1->output(out, indent_level, scope, false);\n        out << \")\";",
   benign=True)
+
+# ---------------------------------------------------------------- R10.6 / R10.7 (F-C10f, F-C10g)
+M("C10-typedef-argument-not-unwrapped", "C10", "src/cppparser/cppType.cxx",
+  "  if (other.get_subtype() == ST_typedef && get_subtype() != ST_typedef) {\n    // A typedef is equivalent to the type it names, whichever side it is on.\n    return other.is_equivalent(*this);\n  }\n",
+  "",
+  expect="R10.6|CPPType::is_equivalent|subtype-mismatch#0")
+M("C10-benign-typedef-argument-unwrapped-by-loop", "C10", "src/cppparser/cppType.cxx",
+  "  if (other.get_subtype() == ST_typedef && get_subtype() != ST_typedef) {\n    // A typedef is equivalent to the type it names, whichever side it is on.\n    return other.is_equivalent(*this);\n  }\n",
+  "  if (other.get_subtype() == ST_typedef) {\n    if (get_subtype() != ST_typedef) {\n      return other.is_equivalent(*this);\n    }\n  }\n",
+  benign=True)
+M("C10-parameter-const-one-side-only", "C10", "src/cppparser/cppParameterList.cxx",
+  "    while (other_type->as_const_type() != nullptr) {\n      other_type = other_type->as_const_type()->_wrapped_around;\n    }\n",
+  "",
+  expect="R10.7|CPPParameterList::is_equivalent|compare#0")
+M("C10-parameter-const-compared", "C10", "src/cppparser/cppParameterList.cxx",
+  "    if (!type->is_equivalent(*other_type)) {",
+  "    if (!_parameters[i]->_type->is_equivalent(*other._parameters[i]->_type)) {",
+  expect="R10.7|CPPParameterList::is_equivalent|compare#0")
